@@ -36,7 +36,7 @@ def programs(tier, rnd: random.Random):
 
 SPEC = semprop.Spec(
     prop="C05", programs=programs, oracles=("diff",),
-    theorems=["C05_fixed_compound_narrow", "C05_refuted_signed_remainder", "C05_refuted", "C05_repaired_witnesses", "C05_if_for_examples"],
+    theorems=["C05_fixed_compound_narrow", "C05_refuted_signed_remainder", "C05_refuted", "C05_repaired_witnesses", "C05_if_for_examples", "C05_statements_correct_repaired", "C05_statements_correct_partial", "C05_statement_shapes_are_the_compilers"],
     note="11 assignment operators x target kinds x types; generated statement sequences with if/else, for (nested, zero-trip, "
          "data-dependent), blocks, stores, jumps",
 )
